@@ -63,7 +63,7 @@ def mkOp (ty arg x : String) : DOp :=
 def isHexTok (s : String) : Bool := (hexDecode s).isSome
 
 def validArg (ty arg : String) : Bool :=
-  if ty == "A" || ty == "B" then isHexTok arg
+  if ty == "A" || ty == "B" || ty == "C" then isHexTok arg
   else if ty == "F" then
     match arg.splitOn "." with
     | [h, n] => isHexTok h && n.length == 1 && n.all Char.isDigit
@@ -76,7 +76,7 @@ def canonNat (s : String) : Option Nat :=
   | none => none
 
 def validLang (l : String) : Bool :=
-  ["en", "en-US", "pl", "fr-CA", "de", "und"].contains l
+  ["en", "en-US", "pl", "fr-CA", "de", "und", "ca", "ca-valencia", "de-1901", "de-1996"].contains l
 
 def parseLookup (ty arg x via : String) : Option DOp :=
   if validArg ty arg && (canonNat x).isSome && (via == "d" || via == "k") then some (mkOp ty arg x) else none
